@@ -58,9 +58,42 @@ def read_forms(rng):
     return out
 
 
+def untracked_forms_under_a_tracker():
+    """the untracked forms exercised while ANOTHER computation's tracker is installed: a computation A writes (inside its tracked run)
+    a signal that re-runs B, and B's cleanup / untrack block / component body / on-callback reads a signal t; A must not end up
+    subscribed to t (and a later write to t must not re-run A)"""
+    out = []
+    for a_kind in ("effect", "memo"):
+        for form in ("cleanup", "cleanup_child", "untrack", "component", "on_body", "getu"):
+            for where in ("initial", "rerun"):
+                b_ss, b_on, b_ret = [], None, ("get", 2)
+                rd = ("log", ("get", 3))
+                if form == "cleanup":
+                    b_ss = [("oncleanup", 1, [rd])]
+                elif form == "cleanup_child":
+                    b_ss = [("scope", 9, [("oncleanup", 1, [rd])])]
+                elif form == "untrack":
+                    b_ss = [("untrack", [rd])]
+                elif form == "component":
+                    b_ss = [("component", [rd])]
+                elif form == "on_body":
+                    b_on, b_ret = [2], ("get", 3)
+                else:
+                    b_ret = ("add", ("get", 2), ("getu", 3))
+                prog = [("signal", 1, ("lit", 1)), ("signal", 2, ("lit", 0)), ("signal", 3, ("lit", 0)),
+                        ("effect", 4, ("body", b_on, b_ss, b_ret)),                                     # B
+                        (a_kind, 5, ("body", None, [("set", 2, ("mul", ("get", 1), ("lit", 2)))], ("get", 1)))]   # A writes d inside its run
+                if where == "rerun":
+                    prog.append(("set", 1, ("lit", 3)))
+                prog += [("set", 3, ("lit", 7)), ("set", 3, ("lit", 8)), ("set", 1, ("lit", 4)), ("set", 3, ("lit", 9))]
+                out.append(prog)
+    return out
+
+
 def gen(tier, rng):
     n_rand = 800 if tier == "quick" else 10000
     cases = [("readforms:%d" % i, p) for i, p in enumerate(read_forms(rng))]
+    cases += [("under-tracker:%d" % i, p) for i, p in enumerate(untracked_forms_under_a_tracker())]
     cases += [("random:%d" % i, p) for i, p in
               enumerate(reactive_gen.random_programs(rng.randrange(1 << 30), n_rand, FEATS, (3, 8), (3, 7)))]
     return cases
